@@ -24,8 +24,8 @@ LEVEL = "proof"
 TRUST = [
     "hand-written Gallina model coq/Model/FluxSolver.v of flux_finder.py (fluxes_from_ujk, fluxes_from_bonds, _flip_adjacent_fluxes, _flip_isolated_fluxes, "
     "ujk_from_fluxes / find_flux_sector incl. both self-checks): modelled, not verified; tied by the correspondence run (bonds reproduced exactly)",
-    "the greedy pairing (set.pop order, float min) and the A* search are oracles in the theorem; their contracts (perfect matching of the defects minus the last when odd; "
-    "valid simple plaquette chain between the pair) are hypotheses, evaluated by the proved boolean checkers on the values captured from the implementation on every solver call",
+    "the greedy pairing is modelled as coded with its two implementation-defined choices (set.pop order, float min) as oracles constrained only to return a member, and PROVED to meet the pairing contract for every such pair (C06_solver_contract_greedy); "
+    "the A* search stays an oracle whose contract (valid simple plaquette chain between the pair) is a hypothesis (discharged for the A* model by C06_astar_oracle_contract), evaluated by the proved boolean checker on the paths captured from the implementation on every solver call",
     "well-formedness fs_wf of (plaquettes, edges.adjacent_plaquettes) is a hypothesis (C01/C02's conclusion), evaluated on every lattice",
     "translator translate/ansatz.py (Python int //, %, ** -> Z.div, Z.modulo, Z.pow): trusted, validated on n = 3..400 against the Python function on every run",
     "make_amorphous: Voronoi construction (Qhull), SAT colouring (glucose) and numpy RNG are outside the model; only the outputs are checked (S)",
